@@ -260,10 +260,12 @@ def select__union_operator(self: XPathToken, context: ta.ContextType = None) \
     if context is None:
         raise self.missing_context()
 
-    results = {item for k in range(2) for item in self[k].select(copy(context))}
-    if any(not isinstance(x, XPathNode) for x in results):
+    items = [item for k in range(2) for item in self[k].select(copy(context))]
+    if any(not isinstance(x, XPathNode) for x in items):
         raise self.error('XPTY0004', 'only XPath nodes are allowed')
-    elif self.concatenated:
+
+    results = set(items)
+    if self.concatenated:
         yield from cast(set[XPathNode], results)
     else:
         yield from cast(list[XPathNode], sorted(results, key=node_position))
